@@ -12,17 +12,16 @@ def datakey(data):
     if data is None:
         return None
     if isinstance(data, dict):
-        return ("dict", tuple((datakey(k), datakey(v)) for k, v in data.items()))
+        return ("dict", tuple(sorted(
+            ((datakey(k), datakey(v)) for k, v in data.items()), key=repr)))
     if isinstance(data, (list, tuple)):
         return (type(data).__name__, tuple(datakey(x) for x in data))
     if isinstance(data, (set, frozenset)):
         return (type(data).__name__, tuple(sorted(map(repr, data))))
     if hasattr(data, "shape") and hasattr(data, "tolist"):
         return ("array", tuple(data.shape), datakey(data.tolist()))
-    if isinstance(data, bool):
-        return ("bool", data)
-    if isinstance(data, (int, float, complex)):
-        return ("num", complex(data))      # 1 == 1.0 == (1+0j) for Python too
+    if isinstance(data, (bool, int, float, complex)):
+        return ("num", complex(data))   # 1 == 1.0 == (1+0j) == True for Python
     return (type(data).__name__, repr(data))
 
 
